@@ -156,8 +156,12 @@ class String(Object, str):
 
     def __new__(cls, s=None, brackets=None):
         value = super().__new__(cls, s)
-        if brackets is not None and f"]{brackets}]" in value:
-            raise ValueError(f"Syntactically illegal bracket string: {s!r}")
+        if brackets is not None:
+            # The closing delimiter mustn't appear in the string, not
+            # even overlapping with the real closing delimiter.
+            closer = f"]{brackets}]"
+            if (value + closer).find(closer) < len(value):
+                raise ValueError(f"Syntactically illegal bracket string: {s!r}")
         value.brackets = brackets
         return value
 
